@@ -310,3 +310,93 @@ func BracketSpaceU(n int, yield func(a *regexref.Atom)) {
 
 // AtomExpr wraps an atom as a whole pattern.
 func AtomExpr(a *regexref.Atom) *regexref.Expr { return expr(sub(single(a, nil))) }
+
+// SequenceSpace yields sequences of two (quick) and three quantified items: every item is a character or a group
+// (`(ab)`, `(a|b)`, `(a?b)`, `(a|b?)`) under no quantifier or one of `+ * ? {2,} {1,} {1,2} +?`; the items of a sequence
+// use different letters (a b, c d, then a b again), so that an automaton in which one item's loop leaks into its
+// neighbour's accepts texts the pattern does not denote. Two items: all 1600 pairs; three: the open-ended quantifiers
+// over three bodies (1728 triples).
+func SequenceSpace(quick bool, yield func(t *regexref.Expr, family string)) {
+	bodies := []string{"a", "(ab)", "(a|b)", "(a?b)", "(a|b?)"}
+	quants := []string{"", "+", "*", "?", "{2,}", "{1,}", "{1,2}", "+?"}
+	relabel := func(s string, k int) string {
+		if k%2 == 1 {
+			s = strings.ReplaceAll(strings.ReplaceAll(s, "a", "c"), "b", "d")
+		}
+		return s
+	}
+	var items []string
+	for _, b := range bodies {
+		for _, q := range quants {
+			items = append(items, b+q)
+		}
+	}
+	emit := func(text, family string) {
+		t, err := regexref.Parse(text)
+		if err != nil {
+			panic(fmt.Sprintf("SequenceSpace: reference cannot read %q: %v", text, err))
+		}
+		yield(t, family)
+	}
+	for _, x := range items {
+		for _, y := range items {
+			emit(relabel(x, 0)+relabel(y, 1), "sequences_of_two_quantified_items")
+		}
+	}
+	if quick {
+		return
+	}
+	var open []string
+	for _, b := range []string{"(ab)", "(a|b)", "a"} {
+		for _, q := range []string{"+", "*", "{1,}", "{2,}"} {
+			open = append(open, b+q)
+		}
+	}
+	for _, x := range open {
+		for _, y := range open {
+			for _, z := range open {
+				emit(relabel(x, 0)+relabel(y, 1)+relabel(z, 2), "sequences_of_three_quantified_items")
+			}
+		}
+	}
+}
+
+// OverlapSpace yields sequences of two and three quantified character classes that OVERLAP (`[a-c]`, `[ab]`, `[a-d]`,
+// `[b-d]`, a plain `a`): one input symbol then stands at several positions of one pattern, and - under `*`, `+`, `{2}`,
+// `{1,2}`, `{2,}` - at several positions of one automaton state. Pairs over all five classes and seven quantifiers
+// (1225); triples over three classes and five quantifiers (3375), thorough: over four classes and six quantifiers.
+func OverlapSpace(quick bool, yield func(t *regexref.Expr, family string)) {
+	emit := func(text, family string) {
+		t, err := regexref.Parse(text)
+		if err != nil {
+			panic(fmt.Sprintf("OverlapSpace: reference cannot read %q: %v", text, err))
+		}
+		yield(t, family)
+	}
+	mk := func(classes, quants []string) []string {
+		var items []string
+		for _, c := range classes {
+			for _, q := range quants {
+				items = append(items, c+q)
+			}
+		}
+		return items
+	}
+	pairs := mk([]string{"[a-c]", "[ab]", "[a-d]", "[b-d]", "a"}, []string{"", "*", "+", "?", "{2}", "{1,2}", "{2,}"})
+	for _, x := range pairs {
+		for _, y := range pairs {
+			emit(x+y, "overlapping_classes_two_items")
+		}
+	}
+	triples := mk([]string{"[a-c]", "[ab]", "[a-d]"}, []string{"", "*", "{2}", "{1,2}", "{2,}"})
+	if !quick {
+		triples = mk([]string{"[a-c]", "[ab]", "[a-d]", "[b-d]"}, []string{"", "*", "+", "{2}", "{1,2}", "{2,}"})
+	}
+	for _, x := range triples {
+		for _, y := range triples {
+			for _, z := range triples {
+				emit(x+y+z, "overlapping_classes_three_items")
+			}
+		}
+	}
+}
